@@ -340,6 +340,10 @@ def spec_c09(obs, lines, info):
     fatal = None
     for i, o in enumerate(obs[1:], 1):
         d = parse(o)
+        # the fatal cause every waiter observes is a library error unless the transport itself reported the loss with a foreign
+        # exception (connection_lost(exc)): a failed write, a timeout, a bad frame are recorded as what they are
+        if fatal in (None, "none") and d["fatal"] == "raw" and (lines[i] if i < len(lines) else "") != "cn.ev lost":
+            return "raw-fatal-cause", i
         for t in ("start", "finish", "disc"):
             v = d[t]
             if v.startswith("raw") and not (v == "raw:CancelledError" and t in info.get("user_cancelled", ())):
